@@ -49,3 +49,8 @@ claim("C06",
       "For every forwarding path: routing code can change a bundle in transit only through the mutators the property allows and never its primary block; every duration that reaches a millisecond quantity has scale 10^6; the exceeded/expired outcomes lead to deletion and cannot reach a send; the hop count is restored exactly once after the sends; an 8-bit hop count cannot wrap and its overflow counts as exceeded.",
       "Not decided: byte identity of the transmitted encoding; timing of the age value.",
       "DESIGN.md §3 C06")
+claim("C03",
+      "finite-domain path enumeration of the block decoders/encoders (array length x CRC type), event-order rule on the enumerated paths (tee before reads, replayed header, compute before CRC field), resolved-constant configuration rule (polynomials, endianness, widths), guarded-store rule for created primary blocks",
+      "For every admissible array length and every CRC type class {0,1,2,unknown} the decoder's CFG is enumerated with those two values bound: a declared CRC can only be accepted through the equal edge of the comparison, unknown types have no accepting path; on the accepting paths the CRC buffer provably receives exactly the block's reads/writes in order; the algorithm configuration is resolved through go/types to X-25 / CRC-32C, big-endian, zeroed field; the serialiser writes the freshly computed value and the announced length always matches the fields written; created primary blocks never end up CRC-less.",
+      "Not decided: the bit-flip / burst detection theorems of the polynomials (mathematics, not code); the CRC libraries' internals.",
+      "DESIGN.md §3 C03")
